@@ -176,10 +176,15 @@ def run(seed, tier, replay=None):
         cases.append((ys, ws, a, b))
     for N in big:  # large unweighted samples: binomial coefficients beyond the double range (u-statistic)
         cases.append(([rng.random() for _ in range(N)], None, -INF, INF))
+    own_strata = replay is None
     if replay is not None:
         v = replay["violation"]["input"] if "violation" in replay else replay
-        cases = [([C.unhex(x) for x in v["ys"]], None if v["ws"] is None else [C.unhex(x) for x in v["ws"]],
-                  C.unhex(v["a"]), C.unhex(v["b"]))]
+        if "rank" in v or "shape" in replay.get("violation", {}) or not isinstance(v.get("a"), str):
+            # a violation of the exact-level / layout strata: they are deterministic given the seed recorded in the replay file
+            cases, own_strata, seed = [], True, int(replay.get("seed", seed))
+        else:
+            cases = [([C.unhex(x) for x in v["ys"]], None if v.get("ws") is None else [C.unhex(x) for x in v["ws"]],
+                      C.unhex(v["a"]), C.unhex(v["b"]))]
 
     # Axis "the caller's arrays": (i) about half of the distributions are built from float64 ndarrays that the CALLER keeps and
     # modifies in place afterwards (sort / reverse / refill with the next sample / permute or zero weights, `gen_emp.caller_mutation`):
@@ -470,7 +475,7 @@ def run(seed, tier, replay=None):
                                 expected=str(bad[1])[:80], observed=float(bad[2]) if float(bad[2]) == float(bad[2]) else "nan",
                                 call=f"EmpiricalDistribution.{call}")
                     break
-    if replay is None:
+    if own_strata:
         exact_levels_at_n1(rep, C.rng_for("C04-n1-levels", seed), tier, ED)
         layout_probe(rep, C.rng_for("C04-layouts", seed), tier, ED)
     return rep.result(
